@@ -251,8 +251,21 @@ def main(out_path):
         raise TranslationError('loop: statement order changed')
 
     # ---- get_boundaries_intersections (whole body) -------------------------------------------
-    gbi2 = sub1(r'return\s+std::make_tuple\s*\(\s*(std::fmin\(ta,\s*tb\))\s*,\s*(std::fmax\(ta,\s*tb\))\s*\)\s*;',
-                r'real_t t_lo = \1; real_t t_hi = \2;', gbi, 'get_boundaries_intersections return')
+    m = re.search(r'return\s+std::make_tuple\s*\((.*)\)\s*;\s*$', gbi, re.S)
+    if not m:
+        raise TranslationError('get_boundaries_intersections: `return std::make_tuple(…, …);` not found')
+    args, depth, cur = [], 0, ''
+    for ch in m.group(1):
+        if ch == ',' and depth == 0:
+            args.append(cur); cur = ''
+            continue
+        depth += ch in '([{'
+        depth -= ch in ')]}'
+        cur += ch
+    args.append(cur)
+    if len(args) != 2:
+        raise TranslationError('get_boundaries_intersections: make_tuple does not have two components')
+    gbi2 = gbi[:m.start()] + f'real_t t_lo = {args[0]}; real_t t_hi = {args[1]};'
     G.stmts('boundaryIntersections', gbi2,
             [('std::copysign', 'copysign', 'F', 'α → α → α')] + P('z', 'd', tag='V') + P('trust_radius'),
             ['t_lo', 't_hi'], None,
